@@ -232,4 +232,236 @@ theorem mac_checked_first (C : PayCrypto) (k : Keys) (hash secret : Bytes) (md :
     · exact (macStage_error_kind C k hash secret md e hm).1
     · exact (macStage_error_kind C k hash secret md e hm).2
 
+/-! ## complete, all-or-nothing: the MPP accumulator of one payment hash
+
+`Reachable s`: `s` is the accumulator after ANY list of ops (`part`, `tick`, `block h`, `claim`,
+`claimDone`, `failBack`, with any arguments, in any order) from the empty one. -/
+
+/-- `PaymentClaimable` is produced only by the arrival of a part, only while no claim is pending,
+    and only when the set is complete: every held part carries the same `total_msat`, the same
+    secret/metadata/purpose tag and the same even-TLV flag as the part that completed it, the
+    sender-intended amounts reach the total, did not reach it before this part, and stay below
+    `MAX_VALUE_MSAT`. -/
+theorem claimable_only_if_complete (s : Mpp) (hs : Reachable s) (op : Op) (a d : Nat)
+    (h : Out.claimable a d ∈ (step s op).2) :
+    ∃ id value intended total cltv tag ev, op = .part id value intended total cltv tag ev ∧
+      s.claiming = false ∧
+      (∀ p ∈ (step s op).1.parts, p.total = total ∧ p.tag = tag ∧ p.evenTlv = ev) ∧
+      total ≤ sumIntended (step s op).1.parts ∧
+      sumIntended (step s op).1.parts - intended < total ∧
+      sumIntended (step s op).1.parts < MAX_VALUE_MSAT := by
+  obtain ⟨id, value, intended, total, cltv, tag, ev, rfl⟩ := claimable_only_from_part s op a d h
+  refine ⟨id, value, intended, total, cltv, tag, ev, rfl, ?_⟩
+  have hinv := (hs.step (.part id value intended total cltv tag ev)).inv
+  simp only [step] at h hinv ⊢
+  obtain ⟨t, g, e, _, hcl, h1, h2, h3, hmax, hlt, hge, heq, _, _⟩ := stepPart_claimable s _ a d h
+  simp only at h1 h2 h3 hmax hlt hge
+  subst h1 h2 h3
+  rw [heq] at hinv ⊢
+  simp only [sumIntended_completed]
+  exact ⟨hcl, hinv.fields, by omega, by omega, by omega⟩
+
+/-- The announced amount is the sum of the values of exactly the held parts (the old ones and the
+    new one), every one of them is marked with it, and the announced deadline is the smallest
+    `cltv_expiry` among them minus `HTLC_FAIL_BACK_BUFFER`. -/
+theorem claimable_amount_deadline (s : Mpp) (op : Op) (a d : Nat)
+    (h : Out.claimable a d ∈ (step s op).2) :
+    a = sumValue (step s op).1.parts ∧
+    (∀ p ∈ (step s op).1.parts, p.totalRecv = some a) ∧
+    (∃ id value intended total cltv tag ev, op = .part id value intended total cltv tag ev ∧
+      ((step s op).1.parts.map (·.id)).Perm (s.parts.map (·.id) ++ [id]) ∧
+      a = sumValue s.parts + value) ∧
+    ∃ m, m ∈ (step s op).1.parts.map (·.cltv) ∧ (∀ c ∈ (step s op).1.parts.map (·.cltv), m ≤ c) ∧
+      d = m - HTLC_FAIL_BACK_BUFFER := by
+  obtain ⟨id, value, intended, total, cltv, tag, ev, rfl⟩ := claimable_only_from_part s op a d h
+  simp only [step] at h ⊢
+  obtain ⟨t, g, e, _, _, _, _, _, _, _, _, heq, ha, hd⟩ := stepPart_claimable s _ a d h
+  rw [heq]
+  simp only
+  refine ⟨by rw [sumValue_completed]; exact ha, ?_, ⟨id, value, intended, total, cltv, tag, ev, rfl, ?_, ?_⟩, ?_⟩
+  · intro p hp
+    obtain ⟨q0, _, rfl⟩ := mem_completed hp
+    rw [ha]
+  · have := (completedParts_perm s { id, value, intended, cltv, ticks := 0, totalRecv := none, total, tag, evenTlv := ev }).map (·.id)
+    simpa [List.map_map, Function.comp_def] using this
+  · rw [ha, sumValue_append]; simp [sumValue]
+  · cases hmin : minCltv (completedParts s { id, value, intended, cltv, ticks := 0, totalRecv := none, total, tag, evenTlv := ev }) with
+    | none =>
+      exfalso
+      simp only [minCltv, List.min?_eq_none_iff, List.map_eq_nil_iff] at hmin
+      exact completed_ne_nil _ _ hmin
+    | some m =>
+      rw [hmin] at hd
+      obtain ⟨h1, h2⟩ := (minCltv_spec _ m).1 hmin
+      exact ⟨m, h1, h2, by rw [hd]; rfl⟩
+
+/-- A part that arrives when the held set is already complete is failed back on its own; the set
+    (and its announcement) is untouched. -/
+theorem late_part_rejected (s : Mpp) (hne : s.parts ≠ []) (hc : s.total ≤ sumIntended s.parts)
+    (id value intended total cltv tag : Nat) (ev : Bool) :
+    step s (.part id value intended total cltv tag ev) = (s, [.failPart id]) := by
+  simp only [step]
+  exact stepPart_late s _ hne hc
+
+/-- MPP timeout: a timer tick on an incomplete set in which some part has waited
+    `MPP_TIMEOUT_TICKS` ticks fails EVERY held part and forgets the set; in every other case a tick
+    fails nothing — in particular a complete set is never timed out. -/
+theorem timeout_fails_all (s : Mpp) :
+    (s.parts ≠ [] → sumIntended s.parts < s.total → (∃ p ∈ s.parts, MPP_TIMEOUT_TICKS ≤ p.ticks + 1) →
+      (step s .tick).2 = s.parts.map (fun q => Out.failPart q.id) ∧ (step s .tick).1.parts = []) ∧
+    (s.total ≤ sumIntended s.parts → (step s .tick).2 = []) ∧
+    ((step s .tick).2 = [] ∨ (step s .tick).2 = s.parts.map (fun q => Out.failPart q.id) ∧ (step s .tick).1.parts = []) := by
+  simp only [step]
+  refine ⟨fun hne hlt hto => ?_, fun hc => ?_, ?_⟩
+  · rcases stepTick_outs s with ⟨_, h2⟩ | ⟨h1, h2, _⟩
+    · rcases h2 with h2 | h2 | h2
+      · exact absurd h2 hne
+      · omega
+      · obtain ⟨p, hp, hp2⟩ := hto; have := h2 p hp; omega
+    · exact ⟨h1, h2⟩
+  · rcases stepTick_outs s with ⟨h1, _⟩ | ⟨_, _, _, h2, _⟩
+    · exact h1
+    · omega
+  · rcases stepTick_outs s with ⟨h1, _⟩ | ⟨h1, h2, _⟩
+    · exact Or.inl h1
+    · exact Or.inr ⟨h1, h2⟩
+
+/-- With the generated constant (`MPP_TIMEOUT_TICKS` of the build under test) the first tick that
+    finds an incomplete set fails all of it. -/
+theorem first_tick_fails_incomplete (s : Mpp) (hne : s.parts ≠ []) (hlt : sumIntended s.parts < s.total) :
+    (step s .tick).2 = s.parts.map (fun q => Out.failPart q.id) ∧ (step s .tick).1.parts = [] := by
+  obtain ⟨p, hp⟩ := List.exists_mem_of_ne_nil _ hne
+  exact (timeout_fails_all s).1 hne hlt ⟨p, hp, by have : MPP_TIMEOUT_TICKS = 1 := rfl; omega⟩
+
+/-- All-or-nothing, for every reachable accumulator and every op:
+    * no step both releases a preimage and fails a part;
+    * a step that releases a preimage is a `claim`, releases it on EVERY held part, reports
+      `PaymentClaimed` for exactly their value, which is the amount every one of them was announced
+      with, and leaves nothing held;
+    * after ANY claim nothing is held, and what it did is one of: nothing / fulfil all / fail all;
+    * `fail_htlc_backwards` fails every held part; a timer tick fails all held parts or none. -/
+theorem all_or_nothing (s : Mpp) (hs : Reachable s) (op : Op) :
+    (¬ ∃ i j, Out.fulfilPart i ∈ (step s op).2 ∧ Out.failPart j ∈ (step s op).2) ∧
+    ((∃ i, Out.fulfilPart i ∈ (step s op).2) →
+      ∃ known amt, op = .claim known ∧
+        (step s op).2 = s.parts.map (fun q => Out.fulfilPart q.id) ++ [.claimed amt] ∧
+        amt = sumValue s.parts ∧ (∀ p ∈ s.parts, p.totalRecv = some amt) ∧
+        (step s op).1.parts = [] ∧ (step s op).1.claiming = true) ∧
+    (∀ known, op = .claim known →
+      (step s op).1.parts = [] ∧
+      ((step s op).2 = [] ∨ (step s op).2 = [.inconsistent] ∨
+       (step s op).2 = s.parts.map (fun q => Out.failPart q.id) ∨
+       (step s op).2 = .inconsistent :: s.parts.map (fun q => Out.failPart q.id) ∨
+       ∃ amt, (step s op).2 = s.parts.map (fun q => Out.fulfilPart q.id) ++ [.claimed amt])) ∧
+    (op = .failBack → (step s op).2 = s.parts.map (fun q => Out.failPart q.id) ∧ (step s op).1.parts = []) ∧
+    (op = .tick → (step s op).2 = [] ∨
+      ((step s op).2 = s.parts.map (fun q => Out.failPart q.id) ∧ (step s op).1.parts = [])) := by
+  have hful : (∃ i, Out.fulfilPart i ∈ (step s op).2) →
+      ∃ known amt, op = .claim known ∧
+        (step s op).2 = s.parts.map (fun q => Out.fulfilPart q.id) ++ [.claimed amt] ∧
+        amt = sumValue s.parts ∧ (∀ p ∈ s.parts, p.totalRecv = some amt) ∧
+        (step s op).1.parts = [] ∧ (step s op).1.claiming = true := by
+    rintro ⟨i, hi⟩
+    obtain ⟨known, rfl⟩ := fulfil_only_from_claim s op i hi
+    simp only [step] at hi ⊢
+    rcases stepClaim_outs s known with h1 | h1 | h1 | h1 | ⟨amt, h1, hl, hcl, _, _⟩
+    · rw [h1] at hi; simp at hi
+    · rw [h1] at hi; simp at hi
+    · rw [h1] at hi; simp at hi
+    · rw [h1] at hi; simp at hi
+    · obtain ⟨hall, hsum⟩ := claim_success_inv hs.inv amt hl
+      exact ⟨known, amt, rfl, h1, hsum.symm, hall, stepClaim_parts s known, hcl⟩
+  refine ⟨?_, hful, ?_, ?_, ?_⟩
+  · rintro ⟨i, j, hi, hj⟩
+    obtain ⟨known, amt, rfl, h1, _⟩ := hful ⟨i, hi⟩
+    rw [h1] at hj
+    simp at hj
+  · rintro known rfl
+    simp only [step]
+    refine ⟨stepClaim_parts s known, ?_⟩
+    rcases stepClaim_outs s known with h1 | h1 | h1 | h1 | ⟨amt, h1, _⟩
+    · exact Or.inl h1
+    · exact Or.inr (Or.inl h1)
+    · exact Or.inr (Or.inr (Or.inl h1))
+    · exact Or.inr (Or.inr (Or.inr (Or.inl h1)))
+    · exact Or.inr (Or.inr (Or.inr (Or.inr ⟨amt, h1⟩)))
+  · rintro rfl; exact ⟨rfl, rfl⟩
+  · rintro rfl; exact (timeout_fails_all s).2.2
+
+/-- Claiming before the advertised deadline is total.  After `PaymentClaimable {a, d}` let ANY
+    sequence of further parts, timer ticks, blocks at heights `< d` and claim completions pass
+    (`Quiet d`): then no held part has been failed (the on-chain timeout fails none of them, ticks
+    none, the only failures are the late parts themselves), and `claim_funds` releases the preimage
+    on every part of the announced set and reports `PaymentClaimed` for exactly `a` — unless the
+    payment carries even custom TLVs and the plain `claim_funds` was used, in which case every part
+    is failed (still all-or-nothing). -/
+theorem claim_before_deadline_total (s : Mpp) (hs : Reachable s) (op : Op) (a d : Nat)
+    (h : Out.claimable a d ∈ (step s op).2) (ops : List Op) (hq : ∀ o ∈ ops, Quiet d o) (known : Bool) :
+    (∀ o ∈ (run (step s op).1 ops).2, ∃ i, o = .failPart i ∧ i ∈ partIds ops) ∧
+    ids (run (step s op).1 ops).1 = ids (step s op).1 ∧
+    ((known = true ∨ (step s op).1.evenTlv = false) →
+      (step (run (step s op).1 ops).1 (.claim known)).2 =
+        (ids (step s op).1).map Out.fulfilPart ++ [.claimed a]) ∧
+    ((known = false ∧ (step s op).1.evenTlv = true) →
+      (step (run (step s op).1 ops).1 (.claim known)).2 = (ids (step s op).1).map Out.failPart) := by
+  obtain ⟨hamt, hmark, _, m, hm1, hm2, hd⟩ := claimable_amount_deadline s op a d h
+  obtain ⟨id, value, intended, total, cltv, tag, ev, hop, hcl, _, hge, _, _⟩ :=
+    claimable_only_if_complete s hs op a d h
+  have hinv := (hs.step op).inv
+  have hready : Ready (step s op).1 a d := by
+    refine ⟨?_, hmark, hamt.symm, ?_, ?_, ?_⟩
+    · intro hnil; rw [hnil] at hm1; simp at hm1
+    · -- the state's total is the common total of its parts
+      have : (step s op).1.total = total := by
+        subst hop
+        simp only [step] at h ⊢
+        obtain ⟨t, g, e, _, _, _, h2, _, _, _, _, heq, _, _⟩ := stepPart_claimable s _ a d h
+        rw [heq]; exact h2.symm
+      rw [this]; exact hge
+    · intro p hp
+      have := hm2 p.cltv (List.mem_map.2 ⟨p, hp, rfl⟩)
+      rw [hd]; simp only [claimDeadline]; omega
+    · subst hop
+      simp only [step] at h ⊢
+      obtain ⟨t, g, e, _, hc, _, _, _, _, _, _, heq, _, _⟩ := stepPart_claimable s _ a d h
+      rw [heq]; exact hc
+  obtain ⟨g1, g2, g3, g4⟩ := hready.run_quiet ops hq
+  refine ⟨g4, g2, fun hk => ?_, fun hk => ?_⟩
+  · have e : ∀ t, step t (.claim known) = stepClaim t known := fun _ => rfl
+    rw [e, ((g1.claim known).1 (by rw [g3]; exact hk))]
+    have e2 : ∀ l : List Part, l.map (fun q => Out.fulfilPart q.id) = (l.map (·.id)).map Out.fulfilPart := by
+      intro l; simp [List.map_map, Function.comp_def]
+    simp only [ids] at g2 ⊢
+    rw [e2, g2]
+  · have e : ∀ t, step t (.claim known) = stepClaim t known := fun _ => rfl
+    rw [e, ((g1.claim known).2 (by rw [g3]; exact hk))]
+    have e2 : ∀ l : List Part, l.map (fun q => Out.failPart q.id) = (l.map (·.id)).map Out.failPart := by
+      intro l; simp [List.map_map, Function.comp_def]
+    simp only [ids] at g2 ⊢
+    rw [e2, g2]
+
+/-- If any part can no longer be claimed, none is.  Once the on-chain timeout (a block at height
+    `h`) has failed a part of positive value of an announced set, then — whatever ops follow, as long
+    as no new complete set is announced — no preimage is ever released for this payment hash. -/
+theorem none_if_part_lost (s : Mpp) (hs : Reachable s) (h : Nat) (q : Part) (hq : q ∈ s.parts) (x : Nat)
+    (hx : q.totalRecv = some x) (hpos : 0 < q.value) (hto : mppOnchainTimeout h q.cltv = true)
+    (ops : List Op) (hno : ∀ a d, Out.claimable a d ∉ (run (step s (.block h)).1 ops).2) (i : Nat) :
+    Out.failPart q.id ∈ (step s (.block h)).2 ∧
+    Out.fulfilPart i ∉ (run (step s (.block h)).1 ops).2 := by
+  constructor
+  · simp only [step, stepBlock, List.mem_map, List.mem_filter]
+    exact ⟨q, ⟨hq, hto⟩, rfl⟩
+  · have hshort : Short (step s (.block h)).1 := Short.of_block hs.inv h q hq x hx hpos hto
+    have hreach : Reachable (step s (.block h)).1 := hs.step _
+    generalize (step s (.block h)).1 = s1 at hshort hreach hno
+    induction ops generalizing s1 with
+    | nil => simp [run]
+    | cons op ops ih =>
+      simp only [run, List.mem_append, not_or] at hno ⊢
+      have hno1 : ∀ a d, Out.claimable a d ∉ (step s1 op).2 := fun a d hm => (hno a d).1 hm
+      refine ⟨?_, ih _ (hshort.preserved op hno1) (hreach.step op) (fun a d hm => (hno a d).2 hm)⟩
+      intro hm
+      obtain ⟨known, rfl⟩ := fulfil_only_from_claim s1 op i hm
+      exact Short.claim_none hreach.inv hshort known i hm
+
 end Ldk.C04
